@@ -1,6 +1,10 @@
 package main
 
-import "strings"
+import (
+	"strings"
+
+	"golang.org/x/tools/go/ssa"
+)
 
 func init() {
 	register("C02", c02)
@@ -71,6 +75,8 @@ func c04(c *Check) {
 
 	c.Rule("C04/failing-hook-fails-the-call", "CallEVMWithData: a post-transaction hook error (e.g. a failing SendPacket) marks the response failed and the failure test is evaluated after the hook, so a failing send fails the enclosing call (shared with C03)", 4)
 	evmHookRule(c, "C04/failing-hook-fails-the-call")
+	c.Rule("C04/hook-sees-every-log", "the packet hook reaches a successful end only after the loop over the receipt's logs: a PacketSent event behind another event of the same transaction is still committed", 1)
+	allLogsProcessed(c, "C04/hook-sees-every-log", pkKeeper+"Hooks.PostTxProcessing")
 
 	c.Rule("C04/committed-bytes-are-the-emitted-bytes", "the packet tuple and the Packet struct agree field by field in both directions, so the packet decoded from the contract's PacketSent bytes re-encodes to the same bytes and the stored commitment is the hash of the emitted packet (shared with C19)", 16)
 	abiTupleRule(c, "C04/committed-bytes-are-the-emitted-bytes", "Packet")
@@ -211,7 +217,38 @@ func tssProofRule(c *Check, rule string) {
 					tssBranch = true
 				}
 			}
-			c.Req(ok && tssBranch, rule, funcName(fn)+"/proof-argument", cs.Ins.Pos(), a[5].String(), "proof argument is "+a[5].String()+" (required "+want+", chosen by the TSS client-type test)")
+			// …and by nothing else: the edge carrying the signer is taken exactly when the client type is TSS
+			onlyTSS := false
+			if ph, isPhi := stripConv(cs.Ins.Common().Args[4]).(*ssa.Phi); isPhi && ph.Parent() == fn {
+				conds := c.P.PhiEdgeConds(ph)
+				common := map[string]bool{}
+				for s := range conds[0] {
+					common[s] = true
+				}
+				for _, cs2 := range conds[1:] {
+					for s := range common {
+						if !cs2[s] {
+							delete(common, s)
+						}
+					}
+				}
+				onlyTSS = true
+				x := c.P.Ex(fn)
+				for i, e := range ph.Edges {
+					var extra []string
+					for s := range conds[i] {
+						if !common[s] {
+							extra = append(extra, s)
+						}
+					}
+					isTSS := len(extra) == 1 && strings.Contains(extra[0], ".ClientType(") && strings.Contains(extra[0], `"tss"`)
+					signer := x.E(e).String() == "$2.Signer"
+					if !isTSS || signer != strings.Contains(extra[0], " == ") {
+						onlyTSS = false
+					}
+				}
+			}
+			c.Req(ok && tssBranch && onlyTSS, rule, funcName(fn)+"/proof-argument", cs.Ins.Pos(), a[5].String(), "proof argument is "+a[5].String()+" (required "+want+", the signer being chosen exactly when the client type is TSS and by no other condition)")
 		}
 	}
 }
